@@ -58,6 +58,10 @@ def obj_attr(self, ip, st, v, name):
         m = {"update": _update, "digest": _digest, "hexdigest": _hexdigest}.get(name)
         if m is not None:
             return iter([(st, LM.L_bound(m, v))])
+        if name == "digest_size":
+            return iter([(st, 32)])
+        if name == "name":
+            return iter([(st, "sha256")])
     return _prev_obj_attr(self, ip, st, v, name)
 
 
